@@ -8,6 +8,8 @@ Parallel Computing (2014).
 
 import heapq
 
+from six import itervalues
+
 from collections import deque
 
 from ...geometry import concentric_hexagons, to_xyz, \
@@ -499,7 +501,9 @@ def avoid_dead_links(root, machine, wrap_around=False):
                 new_node = lookup[(x, y)]
 
                 # Find the node's current parent and disconnect it.
-                for node in lookup[child]:  # pragma: no branch
+                # (Note: the parent may no longer be in the child's subtree if an
+                # ancestor was already re-parented by this path.)
+                for node in list(itervalues(lookup)):  # pragma: no branch
                     dn = [(d, n) for d, n in node.children if n == new_node]
                     assert len(dn) <= 1
                     if dn:
